@@ -114,6 +114,8 @@ impl WB {
                 index,
                 note: note.to_string(),
                 ops: vec![],
+                faults: vec![],
+                knobs: Default::default(),
             },
             next: 0,
             tapes: 0,
